@@ -16,6 +16,7 @@ all-pairs monotonicity (`C02_T4_simplex_mono`). Lemmas: `Lemmas/LatticeEval.lean
 paths), `Lemmas/LatticeSimplex.lean` (ravel/strides, tie-independence, insertion monotonicity,
 cell faces).
 Every statement is for all ranks, sizes, rational kernels and rational points.
+Continuity across cells / simplex regions as explicit Lipschitz and ε–δ theorems: `Props/C02Lip.lean` (`C02_T6_*`).
 -/
 namespace Tfl.C02
 open Tfl Tfl.LatticeEval
